@@ -276,7 +276,7 @@ def run_cases(cases, tag, kvrun=KVRUN, impl_env=None, keep=False):
 # --------------------------------------------------------------------------
 # shrinking (delta debugging on the op list)
 
-DIR_OPS = ('rmindex', 'migrate', 'recoverdir', 'checkdir', 'checkall', 'statdir', 'backupdir', 'damage', 'files')
+DIR_OPS = ('rmindex', 'idxcut', 'migrate', 'recoverdir', 'checkdir', 'checkall', 'statdir', 'backupdir', 'damage', 'files')
 
 
 def wellformed(ops):
